@@ -135,9 +135,7 @@ def scenario_oracle(case) -> Info:
         nontrivial = True
     classes.add(f"fails:{min(3, sum(1 for s in script if s[0] == 'fail'))}")
     classes.add(f"losses:{min(3, facts.get('losses', 0))}")
-    info = Info(nontrivial=nontrivial, classes=tuple(sorted(classes)), sample={"script": [list(s) for s in script], "runs": runs, "iterations": n_iter})
-    info.runs = runs
-    return info
+    return Info(nontrivial=nontrivial, classes=tuple(sorted(classes)), sample={"script": [list(s) for s in script], "runs": runs, "iterations": n_iter}, counts={"executions(runs of connect_loop)": runs})
 
 
 step_st = st.one_of(
